@@ -33,6 +33,17 @@ Proof.
 Qed.
 Lemma in_range_sort_abs (n : nat) (A : cfg) : in_range n A -> in_range n (sort_abs A).
 Proof. intros H l Hl. apply H, in_sort_abs, Hl. Qed.
+(* Vec::dedup only removes *)
+Lemma in_dedup (l : cfg) : forall y, In y (dedup l) -> In y l.
+Proof.
+  induction l as [|a l IH]; intros y H; [exact H|].
+  destruct l as [|b l']; [exact H|].
+  change (dedup (a :: b :: l')) with (if a =? b then dedup (b :: l') else a :: dedup (b :: l')) in H.
+  destruct (a =? b); [right; exact (IH y H)|].
+  destruct H as [->|H]; [now left|right; exact (IH y H)].
+Qed.
+Lemma in_range_enum_key (n : nat) (A : cfg) : in_range n A -> in_range n (enum_key A).
+Proof. intros H l Hl. apply H, in_sort_abs, in_dedup, Hl. Qed.
 
 Lemma counts_length (C : circuit) : length (counts C) = length C.
 Proof. unfold counts. apply pass_length. Qed.
@@ -246,8 +257,8 @@ Proof.
   intros HA Hs. unfold enumerate. destruct (amount =? 0); [auto|].
   destruct (preprocess d A s) as [s1|] eqn:Hp; [|auto].
   pose proof (preprocess_clean A s s1 Hp Hs) as Hs1.
-  destruct (exq (sort_abs A) s1 (in_range_sort_abs n A HA) Hs1) as [s2 [-> Hs2]].
-  destruct (0 <? MCA C n (sort_abs A)); [split; [exact Hs2|discriminate]|auto].
+  destruct (exq (enum_key A) s1 (in_range_enum_key n A HA) Hs1) as [s2 [-> Hs2]].
+  destruct (0 <? MCA C n (enum_key A)); [split; [exact Hs2|discriminate]|auto].
 Qed.
 
 Lemma sampling_state (A : cfg) (amount : Z) (chs : list choice) (s : scratch) :
@@ -299,8 +310,8 @@ Record ext_keeps {CC : Type} (X : extops CC) (C : circuit) : Prop := {
    model (C06), false for one left behind by another model (finding K2) -- and the root's temp
    is not hidden (the root is not a true node). *)
 Definition enum_safe (d : ddnnf) (c : cursor) (s : scratch) (A : cfg) : Prop :=
-  forall s1 s2 r, preprocess d A s = Some s1 -> execute_query d (sort_abs A) s1 = (s2, r) -> 0 < r ->
-    0 < rt d s2 /\ 0 <= cur_get c (sort_abs A) <= Z.min (rt d s2) u64_max.
+  forall s1 s2 r, preprocess d A s = Some s1 -> execute_query d (enum_key A) s1 = (s2, r) -> 0 < r ->
+    0 < rt d s2 /\ 0 <= cur_get c (enum_key A) <= Z.min (rt d s2) u64_max.
 
 Definition enum_limit (d : ddnnf) (p : parsed) : Z :=
   match p_limit p with Some l => l | None => if 1000 <? rc d then 1000 else rc d end.
@@ -308,16 +319,16 @@ Definition enum_limit (d : ddnnf) (p : parsed) : Z :=
 Lemma enumerate_chk_v1 (dbg : bool) (d : ddnnf) (A : cfg) (amount : Z) (c : cursor) (s : scratch) :
   0 <= amount <= u64_max -> enum_safe d c s A ->
   exists am, enumerate_chk V1 dbg d A amount c s = EOk (enumerate d A am c s) /\
-             (cur_get c (sort_abs A) + amount <= u64_max -> am = amount).
+             (cur_get c (enum_key A) + amount <= u64_max -> am = amount).
 Proof.
   intros Ham Hsafe. unfold enumerate_chk.
   destruct (amount =? 0) eqn:E0; [exists amount; auto|].
   destruct (preprocess d A s) as [s1|] eqn:Hp; [|exists amount; auto].
-  destruct (execute_query d (sort_abs A) s1) as [s2 r] eqn:Hq.
+  destruct (execute_query d (enum_key A) s1) as [s2 r] eqn:Hq.
   destruct (0 <? r) eqn:Hr; [|exists amount; auto].
   apply Z.ltb_lt in Hr. destruct (Hsafe s1 s2 r Hp Hq Hr) as [Hrt Hcur].
   cbn [add_usize].
-  set (last := cur_get c (sort_abs A)) in *. set (rtv := rt d s2) in *.
+  set (last := cur_get c (enum_key A)) in *. set (rtv := rt d s2) in *.
   set (sum := Z.min (last + amount) u64_max). set (stop := Z.min rtv sum).
   assert (Hu : 0 < u64_max) by (unfold u64_max; lia).
   assert (Hsum : last <= sum <= u64_max) by (unfold sum; lia).
@@ -547,7 +558,7 @@ Lemma enumerate_chk_shape ver dbg d A amount c s r :
 Proof.
   unfold enumerate_chk. destruct (amount =? 0); [intros E; injection E as <-; eauto|].
   destruct (preprocess d A s); [|intros E; injection E as <-; eauto].
-  destruct (execute_query d (sort_abs A) s0) as [s2 r0].
+  destruct (execute_query d (enum_key A) s0) as [s2 r0].
   destruct (0 <? r0); [|intros E; injection E as <-; eauto].
   destruct (add_usize _ _ _ _); [|discriminate].
   repeat match goal with |- (if ?b then _ else _) = _ -> _ => destruct b; [discriminate|] end.
@@ -687,7 +698,7 @@ Theorem exec_enum_result dbg tf p chs (st : sstate CC) :
   wf_sstate C n st -> (forall l, p_limit p = Some l -> 0 <= l <= u64_max) ->
   enum_safe (dd st) (cur st) (sc st) (p_params p) ->
   exists am,
-    (cur_get (cur st) (sort_abs (p_params p)) + enum_limit (dd st) p <= u64_max -> am = enum_limit (dd st) p) /\
+    (cur_get (cur st) (enum_key (p_params p)) + enum_limit (dd st) p <= u64_max -> am = enum_limit (dd st) p) /\
     exec X V1 dbg (mkrq "enum" tf p) chs st =
     (let '(s', c', r) := enumerate (dd st) (p_params p) am (cur st) (sc st) in
      ({| dd := dd st; sc := s'; cur := c'; cache := cache st |},
